@@ -32,11 +32,11 @@ def sample_try(o):
 
 PLANS = {
     "C01": {
-        "mc": {"quick": [{"module": "MCEval", "cfg": "cfg/MCEval.C01.quick.cfg"}],
-               "thorough": [{"module": "MCEval", "cfg": "cfg/MCEval.C01.thorough.cfg"}]},
-        "drive": {"quick": [{"args": ["eval", "-for", "C01", "-exh", "1", "-exhmax", "1500", "-n", "2500", "-depth", "5",
+        "mc": {"quick": [{"module": "MCEval", "cfg": "cfg/MCEval.C01.quick.cfg", "emit_cases": "cases.ndjson"}],
+               "thorough": [{"module": "MCEval", "cfg": "cfg/MCEval.C01.thorough.cfg", "emit_cases": "cases.ndjson"}]},
+        "drive": {"quick": [{"args": ["eval", "-for", "C01", "-cases", "{S}/cases.ndjson", "-exh", "1", "-exhmax", "1500", "-n", "2500", "-depth", "5",
                                       "-seed", "{seed}", "-progevery", "9"]}],
-                  "thorough": [{"args": ["eval", "-for", "C01", "-exh", "2", "-exhmax", "60000", "-n", "60000", "-depth", "6",
+                  "thorough": [{"args": ["eval", "-for", "C01", "-cases", "{S}/cases.ndjson", "-exh", "2", "-exhmax", "60000", "-n", "60000", "-depth", "6",
                                          "-seed", "{seed}", "-progevery", "40"]}]},
         "judge": jeval(),
         "replay_args": ["eval", "-for", "C01", "-n", "0", "-progevery", "1"],
@@ -46,11 +46,11 @@ PLANS = {
         "sample": sample_eval, "assumptions": EVAL_ASSUME,
     },
     "C02": {
-        "mc": {"quick": [{"module": "MCEval", "cfg": "cfg/MCEval.C02.quick.cfg"}],
-               "thorough": [{"module": "MCEval", "cfg": "cfg/MCEval.C02.thorough.cfg", "timeout": 3400}]},
-        "drive": {"quick": [{"args": ["eval", "-for", "C02", "-exh", "1", "-exhmax", "400", "-n", "700", "-depth", "5",
+        "mc": {"quick": [{"module": "MCEval", "cfg": "cfg/MCEval.C02.quick.cfg", "emit_cases": "cases.ndjson"}],
+               "thorough": [{"module": "MCEval", "cfg": "cfg/MCEval.C02.thorough.cfg", "timeout": 3400, "emit_cases": "cases.ndjson"}]},
+        "drive": {"quick": [{"args": ["eval", "-for", "C02", "-cases", "{S}/cases.ndjson", "-exh", "1", "-exhmax", "400", "-n", "700", "-depth", "5",
                                       "-seed", "{seed}", "-progevery", "40"]}],
-                  "thorough": [{"args": ["eval", "-for", "C02", "-exh", "2", "-exhmax", "15000", "-n", "15000", "-depth", "6",
+                  "thorough": [{"args": ["eval", "-for", "C02", "-cases", "{S}/cases.ndjson", "-exh", "2", "-exhmax", "15000", "-n", "15000", "-depth", "6",
                                          "-seed", "{seed}", "-progevery", "200"]}]},
         "judge": jeval(),
         "replay_args": ["eval", "-for", "C02", "-n", "0", "-progevery", "1"],
@@ -62,11 +62,11 @@ PLANS = {
         "sample": sample_eval, "assumptions": EVAL_ASSUME,
     },
     "C03": {
-        "mc": {"quick": [{"module": "MCEval", "cfg": "cfg/MCEval.C03.quick.cfg"}],
-               "thorough": [{"module": "MCEval", "cfg": "cfg/MCEval.C03.thorough.cfg", "timeout": 3400}]},
-        "drive": {"quick": [{"args": ["eval", "-for", "C03", "-exh", "1", "-exhmax", "1000", "-n", "2500", "-depth", "5",
+        "mc": {"quick": [{"module": "MCEval", "cfg": "cfg/MCEval.C03.quick.cfg", "emit_cases": "cases.ndjson"}],
+               "thorough": [{"module": "MCEval", "cfg": "cfg/MCEval.C03.thorough.cfg", "timeout": 3400, "emit_cases": "cases.ndjson"}]},
+        "drive": {"quick": [{"args": ["eval", "-for", "C03", "-cases", "{S}/cases.ndjson", "-exh", "1", "-exhmax", "1000", "-n", "2500", "-depth", "5",
                                       "-seed", "{seed}", "-progevery", "15"]}],
-                  "thorough": [{"args": ["eval", "-for", "C03", "-exh", "2", "-exhmax", "40000", "-n", "40000", "-depth", "6",
+                  "thorough": [{"args": ["eval", "-for", "C03", "-cases", "{S}/cases.ndjson", "-exh", "2", "-exhmax", "40000", "-n", "40000", "-depth", "6",
                                          "-seed", "{seed}", "-progevery", "100"]}]},
         "judge": jeval(),
         "replay_args": ["eval", "-for", "C03", "-n", "0", "-progevery", "1"],
@@ -77,10 +77,10 @@ PLANS = {
         "sample": sample_eval, "assumptions": EVAL_ASSUME,
     },
     "C10": {
-        "mc": {"quick": [{"module": "MCFold", "cfg": "cfg/MCFold.quick.cfg"}],
-               "thorough": [{"module": "MCFold", "cfg": "cfg/MCFold.thorough.cfg"}]},
-        "drive": {"quick": [{"args": ["eval", "-for", "C10", "-n", "3000", "-depth", "4", "-seed", "{seed}", "-progevery", "15"]}],
-                  "thorough": [{"args": ["eval", "-for", "C10", "-n", "80000", "-depth", "5", "-seed", "{seed}", "-progevery", "100"]}]},
+        "mc": {"quick": [{"module": "MCFold", "cfg": "cfg/MCFold.quick.cfg", "emit_cases": "cases.ndjson"}],
+               "thorough": [{"module": "MCFold", "cfg": "cfg/MCFold.thorough.cfg", "emit_cases": "cases.ndjson"}]},
+        "drive": {"quick": [{"args": ["eval", "-for", "C10", "-cases", "{S}/cases.ndjson", "-n", "3000", "-depth", "4", "-seed", "{seed}", "-progevery", "15"]}],
+                  "thorough": [{"args": ["eval", "-for", "C10", "-cases", "{S}/cases.ndjson", "-n", "80000", "-depth", "5", "-seed", "{seed}", "-progevery", "100"]}]},
         "judge": jeval(),
         "replay_args": ["eval", "-for", "C10", "-n", "0", "-progevery", "1"],
         "rule": "one evaluation = (source tree mixing constants, variables, built-in, stateless-declared p, undeclared f/g/h, "
@@ -90,11 +90,11 @@ PLANS = {
         "sample": sample_eval, "assumptions": EVAL_ASSUME,
     },
     "C04": {
-        "mc": {"quick": [{"module": "MCTry", "cfg": "cfg/MCTry.quick.cfg"}],
-               "thorough": [{"module": "MCTry", "cfg": "cfg/MCTry.thorough.cfg", "timeout": 3400}]},
-        "drive": {"quick": [{"args": ["try", "-for", "C04", "-exh", "1", "-exhmax", "150", "-n", "450", "-depth", "4",
+        "mc": {"quick": [{"module": "MCTry", "cfg": "cfg/MCTry.quick.cfg", "emit_cases": "cases.ndjson"}],
+               "thorough": [{"module": "MCTry", "cfg": "cfg/MCTry.thorough.cfg", "timeout": 3400, "emit_cases": "cases.ndjson"}]},
+        "drive": {"quick": [{"args": ["try", "-for", "C04", "-cases", "{S}/cases.ndjson", "-exh", "1", "-exhmax", "150", "-n", "450", "-depth", "4",
                                       "-seed", "{seed}", "-progevery", "8"]}],
-                  "thorough": [{"args": ["try", "-for", "C04", "-exh", "2", "-exhmax", "6000", "-n", "9000", "-depth", "5",
+                  "thorough": [{"args": ["try", "-for", "C04", "-cases", "{S}/cases.ndjson", "-exh", "2", "-exhmax", "6000", "-n", "9000", "-depth", "5",
                                          "-seed", "{seed}", "-progevery", "50"]}]},
         "judge": jtry(),
         "replay_args": ["try", "-for", "C04", "-n", "0", "-progevery", "1"],
@@ -105,11 +105,11 @@ PLANS = {
         "sample": sample_try, "assumptions": EVAL_ASSUME,
     },
     "C05": {
-        "mc": {"quick": [{"module": "MCTry", "cfg": "cfg/MCTry.quick.cfg"}],
-               "thorough": [{"module": "MCTry", "cfg": "cfg/MCTry.thorough.cfg", "timeout": 3400}]},
-        "drive": {"quick": [{"args": ["try", "-for", "C05", "-exh", "1", "-exhmax", "200", "-n", "900", "-depth", "4",
+        "mc": {"quick": [{"module": "MCTry", "cfg": "cfg/MCTry.quick.cfg", "emit_cases": "cases.ndjson"}],
+               "thorough": [{"module": "MCTry", "cfg": "cfg/MCTry.thorough.cfg", "timeout": 3400, "emit_cases": "cases.ndjson"}]},
+        "drive": {"quick": [{"args": ["try", "-for", "C05", "-cases", "{S}/cases.ndjson", "-exh", "1", "-exhmax", "200", "-n", "900", "-depth", "4",
                                       "-seed", "{seed}", "-progevery", "8"]}],
-                  "thorough": [{"args": ["try", "-for", "C05", "-exh", "2", "-exhmax", "8000", "-n", "20000", "-depth", "5",
+                  "thorough": [{"args": ["try", "-for", "C05", "-cases", "{S}/cases.ndjson", "-exh", "2", "-exhmax", "8000", "-n", "20000", "-depth", "5",
                                          "-seed", "{seed}", "-progevery", "50"]}]},
         "judge": jtry(),
         "replay_args": ["try", "-for", "C05", "-n", "0", "-progevery", "1"],
@@ -120,11 +120,11 @@ PLANS = {
         "sample": sample_try, "assumptions": EVAL_ASSUME,
     },
     "C12": {
-        "mc": {"quick": [{"module": "MCEvents", "cfg": "cfg/MCEvents.quick.cfg"}],
-               "thorough": [{"module": "MCEvents", "cfg": "cfg/MCEvents.thorough.cfg", "timeout": 3400}]},
-        "drive": {"quick": [{"args": ["events", "-exh", "1", "-exhmax", "150", "-n", "700", "-depth", "4",
+        "mc": {"quick": [{"module": "MCEvents", "cfg": "cfg/MCEvents.quick.cfg", "emit_cases": "cases.ndjson"}],
+               "thorough": [{"module": "MCEvents", "cfg": "cfg/MCEvents.thorough.cfg", "timeout": 3400, "emit_cases": "cases.ndjson"}]},
+        "drive": {"quick": [{"args": ["events", "-cases", "{S}/cases.ndjson", "-exh", "1", "-exhmax", "150", "-n", "700", "-depth", "4",
                                       "-seed", "{seed}", "-progevery", "6"]}],
-                  "thorough": [{"args": ["events", "-exh", "2", "-exhmax", "5000", "-n", "20000", "-depth", "5",
+                  "thorough": [{"args": ["events", "-cases", "{S}/cases.ndjson", "-exh", "2", "-exhmax", "5000", "-n", "20000", "-depth", "5",
                                          "-seed", "{seed}", "-progevery", "40"]}]},
         "judge": {"module": "JudgeEvents", "cfg": "JudgeEvents.cfg"},
         "replay_args": ["events", "-n", "0", "-progevery", "1"],
@@ -178,11 +178,13 @@ PLANS = {
     },
     "C06": {
         "mc": {"quick": [{"module": "MCParse", "cfg": "cfg/MCParse.quick.cfg"},
+                         {"module": "MCParse", "cfg": "cfg/MCParse.guards.quick.cfg", "emit_cases": "guards.txt"},
                          {"module": "MCEval", "cfg": "cfg/MCEval.C06.quick.cfg"}],
                "thorough": [{"module": "MCParse", "cfg": "cfg/MCParse.thorough.cfg", "timeout": 3400},
+                            {"module": "MCParse", "cfg": "cfg/MCParse.guards.thorough.cfg", "emit_cases": "guards.txt", "timeout": 3400},
                             {"module": "MCEval", "cfg": "cfg/MCEval.C06.thorough.cfg", "timeout": 3400}]},
-        "drive": {"quick": [{"args": ["total", "-exh", "4", "-n", "3000", "-depth", "4", "-seed", "{seed}", "-tier", "quick"]}],
-                  "thorough": [{"args": ["total", "-exh", "5", "-n", "60000", "-depth", "5", "-seed", "{seed}", "-tier", "thorough"],
+        "drive": {"quick": [{"args": ["total", "-cases", "{S}/guards.txt", "-exh", "4", "-n", "3000", "-depth", "4", "-seed", "{seed}", "-tier", "quick"]}],
+                  "thorough": [{"args": ["total", "-cases", "{S}/guards.txt", "-exh", "5", "-n", "60000", "-depth", "5", "-seed", "{seed}", "-tier", "thorough"],
                                 "timeout": 3400}]},
         "judge": {"module": "JudgeTotal", "cfg": "JudgeTotal.cfg"},
         "replay_args": ["total", "-exh", "0", "-n", "0"],
